@@ -18,3 +18,4 @@ OUTSIDE = 'signals on the updater thread (inside synchronize_rcu / call_rcu), ne
 ASSUMPTIONS = ['signal = frame pushed on the interrupted thread at one of its scheduling points, runs to completion on its slot (same TLS, same store buffer) while other threads interleave']
 LEVEL_TEXT = 'Bounded model checking of the real read-side primitives interrupted by a handler that uses them, against the C01 oracles and reader-word restoration, all interleavings within R rounds.'
 LEVEL_NOTE = 'Trusted: clang-14 lowering, irseq translator, asm table, scheduler/signal model, futex/mutex stubs, CBMC/MiniSat.'
+NA_REASON = 'check built but not yet validated on the unchanged tree within the time/memory caps; not claimed'
